@@ -31,6 +31,7 @@ func init() {
 		"strings.ReplaceAll": iReplaceAll,
 		"strings.ToLower":    iToLower,
 		"strings.Index":      iIndex,
+		"strings.Count":      iCount,
 
 		"strconv.Atoi":       iAtoi,
 		"strconv.ParseFloat": iParseFloat,
@@ -123,6 +124,54 @@ func iIndex(m *machine, fr *frame, args []value) value {
 	t := rawApp("str.indexof", SInt, s, p, mkInt(0))
 	t.rng, t.lo, t.hi = true, -1, maxStrLen
 	return t
+}
+
+// iCount: strings.Count for a concrete needle over a concatenation whose
+// symbolic parts cannot contain the needle's first byte (every occurrence then
+// starts inside a constant part and is decided there, forking where it runs
+// into a symbolic part).
+func iCount(m *machine, fr *frame, args []value) value {
+	s, sc := strArg(args[0])
+	nd, nc := strArg(args[1])
+	if !nc {
+		panic(cut{"strings.Count with symbolic needle"})
+	}
+	needle := nd.S
+	if sc {
+		return int64(strings.Count(s.S, needle))
+	}
+	if needle == "" {
+		panic(cut{"strings.Count with empty needle on symbolic string"})
+	}
+	for k := 1; k < len(needle); k++ {
+		if strings.HasSuffix(needle, needle[:k]) {
+			panic(cut{"strings.Count with a self-overlapping needle on symbolic string"})
+		}
+	}
+	parts := concatParts(s)
+	for _, p := range parts {
+		if p.Op != "cs" && !m.cannotContain(p, needle[0]) {
+			if m.branch(mkContains(p, mkStr(needle[:1]))) {
+				panic(cut{"strings.Count: a symbolic part may contain the first byte of the needle (outside bound)"})
+			}
+		}
+	}
+	count := int64(0)
+	for i, p := range parts {
+		if p.Op != "cs" {
+			continue
+		}
+		for off := 0; off < len(p.S); off++ {
+			if p.S[off] != needle[0] {
+				continue
+			}
+			tail := mkConcat(append([]*Term{mkStr(p.S[off:])}, parts[i+1:]...)...)
+			if m.truth(fromTerm(mkPrefixOf(nd, tail))) {
+				count++
+			}
+		}
+	}
+	return count
 }
 
 // stripPrefix: if s = p ++ r syntactically, return r.
